@@ -64,9 +64,8 @@ def configs(tier):
         for n in (2, 3):
             for loops in (-1, 1, 2, 3):
                 for cache in (False, n - 1):
-                    for dur0 in (100, "DYN"):
-                        for pad0 in ("E0", "Arel"):
-                            out.append((cfg_of(n, loops, cache, dur0, pad0, "wide"), 0))
+                    for dur0, pad0 in ((100, "E0"), ("DYN", "Arel")):
+                        out.append((cfg_of(n, loops, cache, dur0, pad0, "wide"), 0))
         for loops in (-1, 2):
             out.append((cfg_of(4, loops, False, 100, "E0", "full"), 0))
         for loops in (-1, 1, 2, 3):
